@@ -24,6 +24,8 @@ BUILD = os.path.join(os.path.dirname(VX), "build", "vx")
 
 KIND_BY_MSG = [
     ("postcondition not satisfied", "ensures"),
+    ("index in bounds", "index"),
+    ("precondition not met", "requires-of-callee"),
     ("precondition not satisfied", "requires-of-callee"),
     ("invariant not satisfied before loop", "invariant-entry"),
     ("invariant not satisfied at end of loop body", "invariant-preserved"),
